@@ -1,5 +1,6 @@
 import Dhlldv.Lemmas.Basic
 import Dhlldv.Lemmas.WilsonMono
+import Dhlldv.Lemmas.WilsonPos
 import Dhlldv.Gen.WilsonV50
 import Mathlib.Tactic.Positivity
 import Mathlib.Tactic.FieldSimp
@@ -164,6 +165,20 @@ theorem C20_stratified_Erhg_antitone {v1 v2 Dp d eps nu rhol rhos Cv : ℝ} (mus
     (h1 : InE v1 Dp d eps nu rhol rhos Cv) (h2 : InE v2 Dp d eps nu rhol rhos Cv) (h12 : v1 < v2) (hm : 0 < musf) :
     wilson_stratified.Erhg v2 Dp d eps nu rhol rhos musf Cv Cvb ≤ wilson_stratified.Erhg v1 Dp d eps nu rhol rhos musf Cv Cvb :=
   wilson_stratified_Erhg_antitone musf Cvb h1 h2 h12 hm
+
+/-- the Wilson stratified deposit velocity is STRICTLY positive for physical inputs, a positive friction factor and 0 < Cv/Cvb < 1 -/
+theorem C20_Vsm_pos (Dp d rhol rhos musf Cv Cvb f : ℝ) (hDp : 0 < Dp) (hd : 0 < d) (hl : 0 < rhol) (hs : rhol < rhos) (hm : 0 < musf) (hf : 0 < f)
+    (hc0 : 0 < Cv / Cvb) (hc1 : Cv / Cvb < 1) : 0 < wilson_stratified.Vsm Dp d rhol rhos musf Cv Cvb f :=
+  Vsm_pos Dp d rhol rhos musf Cv Cvb f hDp hd hl hs hm hf hc0 hc1
+
+/-- on E the Wilson stratified excess gradient is strictly positive, so — with no positivity hypothesis — the Wilson stratified gradient exceeds the
+water gradient at every point of E -/
+theorem C20_stratified_exceeds_water {v Dp d eps nu rhol rhos Cv : ℝ} (musf Cvb : ℝ)
+    (h : InE v Dp d eps nu rhol rhos Cv) (hm : 0 < musf) :
+    0 < wilson_stratified.Erhg v Dp d eps nu rhol rhos musf Cv Cvb ∧
+    homogeneous.fluid_head_loss v Dp eps nu rhol < wilson_stratified.stratified_head_loss v Dp d eps nu rhol rhos musf Cv Cvb := by
+  have hp := wilson_stratified_Erhg_pos musf Cvb h hm
+  exact ⟨hp, (C20_heads_exceed_water Dp d d eps nu rhol rhos musf v d Cv Cvb h.rhos_gt h.rhol_pos h.Cv_pos).1 hp⟩
 
 /-! Non-vacuity: the hypotheses of `C20_Vsm_at_reported_max` / `C20_Vsm_nonneg` are met by a concrete sand. -/
 example : (0:ℝ) < 0.5 ∧ (0:ℝ) < 0.001 ∧ (0:ℝ) < 1.0 ∧ (1.0:ℝ) < 2.65 ∧ (0:ℝ) < 0.4 ∧ (0:ℝ) ≤ 0.012 ∧ (0:ℝ) ≤ 0.2 / 0.6 ∧ (0.2:ℝ) / 0.6 ≤ 1 := by
